@@ -307,6 +307,12 @@ func (search *Search) quiescence(aPosGen *Generator, alpha, beta, depth int,
 		score = -search.quiescence(aPosGen, -beta, -alpha, depth+1, &bestSubline, startTime, endTime)
 		aPosGen.PopMove()
 
+		// a capture tree can take minutes: notice a stop request here too, not only between full-width moves
+		select {
+		case <-search.stop:
+			search.interrupted = true
+		default:
+		}
 		if search.interrupted || time.Now().After(endTime) {
 			break
 		}
